@@ -38,6 +38,9 @@ F32_POOL = [0x00000000, 0x80000000, 0x3F800000, 0xBF800000, 0x3F000000, 0xBF0000
             0x4F000000, 0xCF000000, 0x4F800000, 0x4EFFFFFF, 0x4B000000, 0x4B000001, 0x3EAAAAAB, 0x42F60000, 0xC2F60000]
 
 
+F32_SMALL = [0x00000000, 0x3F800000, 0xBF800000, 0x40000000, 0x40400000, 0x40800000, 0x3F000000, 0xC0A00000, 0x41200000, 0x40200000, 0xC0200000, 0x3FC00000]
+
+
 class Enums:
     def __init__(self, tools):
         res = gen.extract(tools, [{"kind": "consts", "file": f} for f in gen.IR_ENUM_FILES])
@@ -98,16 +101,20 @@ class IrTypes:
         return False
 
     def gen_scalar(self, kind, rng, mode):
+        """mode: pool (boundary values + random), finite (floats small and exact, ints from the pool),
+        small (ints < 4, floats small), zero"""
         if mode == "zero":
             bits = 0
         elif kind == "f":
-            bits = rng.choice(F32_POOL) if rng.chance(3, 4) else rng.below(M32)
-            if mode == "finite_small":
-                bits = rng.choice([0x00000000, 0x3F800000, 0xBF800000, 0x40000000, 0x40400000, 0x40800000, 0x3F000000, 0xC0A00000, 0x41200000])
+            if mode in ("finite", "small"):
+                bits = rng.choice(F32_SMALL)
+            else:
+                bits = rng.choice(F32_POOL) if rng.chance(3, 4) else rng.below(M32)
         else:
-            bits = rng.choice(I32_POOL) if rng.chance(3, 4) else rng.below(M32)
             if mode == "small":
                 bits = rng.below(4)
+            else:
+                bits = rng.choice(I32_POOL) if rng.chance(3, 4) else rng.below(M32)
         return {kind: bits}
 
     def gen_value(self, h, rng, mode="pool", rt_len=3):
@@ -121,7 +128,7 @@ class IrTypes:
             sk = self.scalar_kind(t["Scalar"])
             return {"vec": [self.gen_scalar(sk, rng, mode) for _ in range(t["Size"])]}
         if k == "MatrixType":
-            fm = mode if mode == "zero" else "finite_small"
+            fm = mode if mode == "zero" else "finite"
             return {"mat": [{"vec": [self.gen_scalar("f", rng, fm) for _ in range(t["Rows"])]} for _ in range(t["Columns"])]}
         if k == "ArrayType":
             n = t["Size"]["Constant"]
@@ -420,3 +427,76 @@ def check_layout(T, ir, ast, layout, plan, ep_fn):
         if h in plan.slot and plan.slot[h] in by_slot and sp in ("SpaceStorage", "SpaceUniform"):
             walk(ty, by_slot[plan.slot[h]]["ty"], ir["GlobalVariables"][h]["Name"])
     return bad, checked[0]
+
+
+# ------------------------------------------------------------------ batched execution of the two interpreters
+
+def run_models_parallel(exe, requests, workers=6, timeout=400):
+    """run_model over chunks in parallel processes; returns results in request order.
+    A chunk whose process dies is re-run request by request so that one bad request cannot hide the others."""
+    from concurrent.futures import ThreadPoolExecutor
+    if not requests:
+        return []
+    workers = max(1, min(workers, len(requests)))
+    idx = list(range(len(requests)))
+    parts = [idx[i::workers] for i in range(workers)]
+    out = [None] * len(requests)
+
+    def work(part):
+        try:
+            rs = vcheck.run_model(exe, [requests[i] for i in part], timeout=timeout)
+            for i, r in zip(part, rs):
+                out[i] = r
+        except Exception as e:
+            for i in part:
+                try:
+                    out[i] = vcheck.run_model(exe, [requests[i]], timeout=40)[0]
+                except Exception as e2:
+                    out[i] = {"ok": False, "kind": "crash", "msg": str(e2)[-300:]}
+
+    with ThreadPoolExecutor(workers) as ex:
+        list(ex.map(work, parts))
+    return out
+
+
+def binding_optset(ir, enums, name, fake=False):
+    """An option set with a per-entry-point resource map: buffer (group, binding) -> slot 3 + 2*rank (reverse handle
+    order), sizes buffer in slot 30.  With fake=True only the first buffer is mapped and FakeMissingBindings is on."""
+    bufs = []
+    for h, g in enumerate(ir["GlobalVariables"]):
+        sp = enums.name("AddressSpace", g["Space"])
+        if sp in ("SpaceStorage", "SpaceUniform") and g["Binding"]:
+            bufs.append((h, g["Binding"]["Group"], g["Binding"]["Binding"], sp == "SpaceStorage"))
+    slots = {}
+    res = []
+    for rank, (h, grp, b, mut) in enumerate(reversed(bufs)):
+        if fake and rank > 0:
+            continue
+        slots[h] = 3 + 2 * rank
+        res.append([grp, b, 3 + 2 * rank, mut])
+    m = {}
+    for ep in ir["EntryPoints"]:
+        m[ep["Name"]] = {"res": res, "sizes": 30}
+    o = {"name": name, "map": m, "lang": [2, 2]}
+    if fake:
+        o["fake"] = True
+    return o, slots
+
+
+def ir_features(ir):
+    """expression/statement kinds and math functions used anywhere in the module (for choosing inputs)"""
+    feats = set()
+
+    def walk_fn(f):
+        for e in f["Expressions"]:
+            k = e["Kind"]
+            feats.add(k["_t"])
+            if k["_t"] == "ExprMath":
+                feats.add("Math:%s" % k["Fun"])
+            if k["_t"] == "ExprAs" and k.get("Convert") is not None:
+                feats.add("As:%s" % k["Kind"])
+    for f in ir["Functions"]:
+        walk_fn(f)
+    for ep in ir["EntryPoints"]:
+        walk_fn(ep["Function"])
+    return feats
